@@ -1,0 +1,61 @@
+//go:build verif
+
+// Contracts for the govc verifier (see /verif/DESIGN.md). Comment-only file: with the
+// "verif" build tag off it is not compiled; with it on it contains only the package clause.
+
+package store
+
+// Monitor of the additional-layer-store bookkeeping: every present use count is >= 1 (never
+// negative, no zero entries left behind) and inner maps that are present are non-empty.
+//@ pure LL(r *LayerManager) bool = r.layer != nil ==> (forall ref string :: ref in r.layer ==> (r.layer[ref] != nil ==> (forall td string :: td in r.layer[ref] ==> r.layer[ref][td] != nil)))
+//@ pure LM(r *LayerManager) bool = r.refcounter != nil ==> (forall ref string :: ref in r.refcounter ==> (r.refcounter[ref] != nil && len(r.refcounter[ref]) >= 1 && (forall td string :: td in r.refcounter[ref] ==> r.refcounter[ref][td] >= 1)))
+//@ type LayerManager
+//@   guards mu: layer, refcounter, resolveLayerCache
+//@   invariant[C16] mu: LM(self)
+//@   invariant[C16] mu: LL(self)
+//@   invariant[C16] mu: self.refcounter != nil ==> (forall a string, b string :: a in self.refcounter && b in self.refcounter && a != b ==> self.refcounter[a] != self.refcounter[b])
+
+//@ pure hasUse(r *LayerManager, ref string, td string) bool = r.refcounter != nil && ref in r.refcounter && r.refcounter[ref] != nil && td in r.refcounter[ref]
+//@ func (r *LayerManager) use
+//@   props C16
+//@   ensures[C16] forall ref string, td string :: (ref != refspec.String() || td != tocDigest.String()) ==> ((hasUse(r, ref, td) <==> locked(hasUse(r, ref, td))) && (hasUse(r, ref, td) ==> r.refcounter[ref][td] == locked(r.refcounter[ref][td])))
+//@   ensures[C16] hasUse(r, refspec.String(), tocDigest.String()) && r.refcounter[refspec.String()][tocDigest.String()] == result && result == (locked(hasUse(r, refspec.String(), tocDigest.String())) ? locked(r.refcounter[refspec.String()][tocDigest.String()]) + 1 : 1)
+//@   arith math
+//@   requires r.refPool != nil && r.refPool.cache != nil && r.refPool.cache.cache != nil
+//@   ensures[C16] result >= 1
+//@ func (r *LayerManager) release
+//@   props C16
+//@   requires r.refPool != nil
+//@   ensures[C16] err == nil ==> result0 >= 0
+//@   ensures[C16] forall ref string, td string :: (ref != refspec.String() || td != tocDigest.String()) ==> ((hasUse(r, ref, td) <==> locked(hasUse(r, ref, td))) && (hasUse(r, ref, td) ==> r.refcounter[ref][td] == locked(r.refcounter[ref][td])))
+//@   ensures[C16] err == nil ==> locked(hasUse(r, refspec.String(), tocDigest.String())) && result0 == locked(r.refcounter[refspec.String()][tocDigest.String()]) - 1
+//@   ensures[C16] err == nil && result0 >= 1 ==> hasUse(r, refspec.String(), tocDigest.String()) && r.refcounter[refspec.String()][tocDigest.String()] == result0
+//@   ensures[C16] err == nil && result0 <= 0 ==> !(r.refcounter != nil && refspec.String() in r.refcounter && tocDigest.String() in r.refcounter[refspec.String()])
+//@   ensures[C16] err == nil && result0 <= 0 && !(r.refcounter != nil && refspec.String() in r.refcounter) ==> !(r.resolveLayerCache != nil && refspec.String() in r.resolveLayerCache)
+
+// cacheLayer / getCachedLayer: a layer is handed out only under the TOC digest it was verified with.
+//@ uf layerTOC(layer.Layer) string
+//@ func interface fs/layer.Layer.Info
+//@   ensures result.TOCDigest == layerTOC(self)
+//@ func (r *LayerManager) cacheLayer
+//@   props C16
+//@   requires l != nil
+//@   ensures[C16] result0 != nil && (added ==> result0 == l)
+//@   ensures[C16] !added ==> layerTOC(result0) == tocDigest
+//@ func (r *LayerManager) getCachedLayer
+//@   props C16
+//@   ensures[C16] result != nil ==> layerTOC(result) == tocDigest
+
+// The image-reference pool is a second monitor (refPool.mu): tracked references have count >= 1 and a release func.
+//@ pure RP(p *refPool) bool = p.refcounter != nil && (forall k string :: k in p.refcounter ==> p.refcounter[k] != nil && p.refcounter[k].count >= 1 && p.refcounter[k].release != nil) && (forall a string, b string :: a in p.refcounter && b in p.refcounter && a != b ==> p.refcounter[a] != p.refcounter[b])
+//@ type refPool
+//@   guards mu: refcounter
+//@   invariant[C16] mu: RP(self)
+//@ func (p *refPool) use
+//@   props C16
+//@   arith math
+//@   requires p.cache != nil && p.cache.cache != nil
+//@   ensures[C16] result >= 1
+//@ func (p *refPool) release
+//@   props C16
+//@   ensures[C16] err == nil ==> result0 >= 0
